@@ -592,7 +592,10 @@ func (a *dynamicArray) getStr(p unistring.String, receiver Value) Value {
 		return intToValue(int64(a.a.Len()))
 	}
 	if idx, ok := strToInt(p); ok {
-		return a.a.Get(idx)
+		// same as getIdx: an index the DynamicArray does not have is looked up on the prototype chain
+		if val := a.a.Get(idx); val != nil {
+			return val
+		}
 	}
 	return a.getParentStr(p, receiver)
 }
